@@ -37,7 +37,7 @@ def plan(tier, seed):
     for d in DOMAINS:
         specs.append({'name': 'bfs-' + d, 'mode': 'bfs', 'domain': d,
                       'depth': (4 if d != 'LShape' else 3) if tier == 'quick' else (6 if d != 'LShape' else 5)})
-    for k in range(8 if tier == 'quick' else 32):
+    for k in range(8 if tier == 'quick' else 96):
         specs.append({'name': 'rand-%d' % k, 'mode': 'random', 'rseed': seed * 4001 + k, 'n_seq': 6 if tier == 'quick' else 12,
                       'steps': 60 if tier == 'quick' else 150})
     lmax = 7 if tier == 'quick' else 10
